@@ -279,7 +279,7 @@ Proof.
     | exec _ _ _ (if str_eqb n0 ?k then _ else _) _ = _ => destruct (str_eqb n0 k) eqn:?; try discriminate
     end; try (eapply safe_clean; eauto; reflexivity).
     + (* EOI *) destruct (prule_err _ _ _ _ _ H W) as [->|(s2 & s3 & X & S2 & W2 & S3)]; [reflexivity|].
-      rewrite S3, <- S2. f_equal. eapply safe_prog_err with (p := PPrim MEoi); eauto. now rewrite S2.
+      rewrite S3, <- S2. f_equal. eapply (safe_prog_err (PPrim MEoi) _ s2 a s3 eq_refl W2); [rewrite S2; exact I|exact X].
     + (* a rule or a Unicode property *)
       destruct (has_orule RG n0) eqn:HR.
       * destruct (orule_id_nth _ HR) as (r & Nth & Nm). cbn [exec] in H. unfold vm_env in H. rewrite Nth in H. cbn [option_map] in H.
